@@ -870,8 +870,66 @@ func (r *Run) checkState() *wx.Failure {
 			}
 		}
 	}
-	if used := w.Stats().Entities.Used; used != alive {
+	st := w.Stats()
+	if used := st.Entities.Used; used != alive {
 		return r.fail("C02", "count-mismatch", fmt.Sprintf("Stats().Entities.Used = %d, expected %d alive", used, alive))
+	}
+	// the node / table statistics describe the same world: entities per component set as in the model, tables add up
+	{
+		perSet := map[uint8]int{}
+		for s := range m.Slots {
+			if m.Slots[s].Alive {
+				perSet[m.Slots[s].Has]++
+			}
+		}
+		total, activeNodes := 0, 0
+		for ni := range st.Nodes {
+			nd := &st.Nodes[ni]
+			var has uint8
+			foreign := false
+			for _, cid := range nd.ComponentIDs {
+				ci := -1
+				for k := range r.ids {
+					if idNum(r.ids[k]) == cid {
+						ci = k
+					}
+				}
+				if ci < 0 {
+					foreign = true
+				} else {
+					has |= 1 << ci
+				}
+			}
+			sum, act := 0, 0
+			for ai := range nd.Archetypes {
+				a := &nd.Archetypes[ai]
+				if a.IsActive {
+					act++
+					sum += a.Size
+				} else if a.Size != 0 {
+					return r.fail("", "stats:inactive-table-size", fmt.Sprintf("Stats(): node %v lists an inactive table holding %d entities", nd.ComponentIDs, a.Size))
+				}
+				if a.Size > a.Capacity {
+					return r.fail("", "stats:capacity", fmt.Sprintf("Stats(): node %v lists a table with size %d > capacity %d", nd.ComponentIDs, a.Size, a.Capacity))
+				}
+			}
+			if nd.IsActive {
+				activeNodes++
+			}
+			if sum != nd.Size || act != nd.ActiveArchetypeCount || len(nd.Archetypes) != nd.ArchetypeCount {
+				return r.fail("", "stats:node-sums", fmt.Sprintf("Stats(): node %v reports size %d / %d active of %d tables, its table list adds up to %d / %d active of %d",
+					nd.ComponentIDs, nd.Size, nd.ActiveArchetypeCount, nd.ArchetypeCount, sum, act, len(nd.Archetypes)))
+			}
+			if !foreign {
+				if nd.Size != perSet[has] {
+					return r.fail("", "stats:node-size", fmt.Sprintf("Stats(): node %v holds %d entities, %d entities have exactly these components", nd.ComponentIDs, nd.Size, perSet[has]))
+				}
+			}
+			total += nd.Size
+		}
+		if total != alive || activeNodes != st.ActiveNodeCount {
+			return r.fail("", "stats:totals", fmt.Sprintf("Stats(): nodes hold %d entities (%d alive), %d nodes flagged active (ActiveNodeCount %d)", total, alive, activeNodes, st.ActiveNodeCount))
+		}
 	}
 	q := w.Query(ecs.All())
 	cnt := q.Count()
